@@ -8,7 +8,8 @@
     function that needs it takes the value of `exp` as an input (checked separately against a
     verified enclosure, see Corr.v).  The L-BFGS solver itself is not modelled: its result is
     judged by the verified stationarity checkers of Corr.v / Proofs.v (pattern B). *)
-From Coq Require Import List NArith ZArith Bool Reals String.
+From Coq Require Import List NArith ZArith QArith Qreals Bool Reals.
+From Coq Require String.
 From LinfaVerif Require Import Common.Num Common.NdSum Common.QF.
 Import ListNotations.
 
@@ -71,7 +72,7 @@ Definition label_classes_multi (y : list C) : list C * list (option nat) :=
 End Labels.
 
 (** labels as they cross the Rust/Coq boundary: usize, bool or String targets *)
-Inductive lab := LN (n : N) | LB (b : bool) | LS (s : string).
+Inductive lab := LN (n : N) | LB (b : bool) | LS (s : String.string).
 Definition lab_eqb (a b : lab) : bool :=
   match a, b with
   | LN x, LN y => N.eqb x y
@@ -232,3 +233,24 @@ Definition multi_grad_W (k : nat) alpha X (y : list nat) W b (j c : nat) : R :=
   + alpha * nth c (nth j W []) 0.
 Definition multi_grad_b (k : nat) X (y : list nat) W b (c : nat) : R :=
   Rsum (map (fun xy => softmax (scores k W b (fst xy)) c - indic (snd xy) c) (combine X y)).
+
+(** the gradient vectors the checkers bound: d weight components, then the intercept component *)
+Definition glin_grad (phi : R -> R -> R) (c2 : R) (icpt : bool) X y w b : list R :=
+  map (glin_grad_w phi c2 X y w b) (seq 0 (length w)) ++ (if icpt then [glin_grad_b phi X y w b] else []).
+Definition multi_grad (k : nat) alpha (icpt : bool) X (y : list nat) W b : list R :=
+  flat_map (fun j => map (fun c => multi_grad_W k alpha X y W b j c) (seq 0 k)) (seq 0 (length W))
+  ++ (if icpt then map (multi_grad_b k X y W b) (seq 0 k) else []).
+
+(** the derivative of the unit deviance selected by the (rational value of the) power *)
+Definition ddev_of (p : Q) : R -> R -> R :=
+  if Qeq_bool p 0 then dev_deriv_normal else dev_deriv (Q2R p).
+
+(** replacing one coordinate of a parameter vector / matrix (to state partial derivatives) *)
+Fixpoint set_nth {A} (l : list A) (j : nat) (v : A) : list A :=
+  match l, j with
+  | [], _ => []
+  | _ :: t, O => v :: t
+  | a :: t, S j' => a :: set_nth t j' v
+  end.
+Definition set_nth2 (W : list (list R)) (j c : nat) (t : R) : list (list R) :=
+  set_nth W j (set_nth (nth j W []) c t).
